@@ -267,8 +267,9 @@ func (mc *MetricsCollector) updateAverageResponseTime(newResponseTime float64) {
 func (mc *MetricsCollector) GetMetrics() *Metrics {
 	mc.metrics.mutex.RLock()
 
-	// Update uptime (fast string operation)
-	mc.metrics.Uptime = time.Since(mc.metrics.StartTime).String()
+	// Uptime is computed for the copy: writing it into the shared struct under the read
+	// lock raced with every other reader doing the same
+	uptime := time.Since(mc.metrics.StartTime).String()
 
 	// Get pooled metrics object to reduce allocations
 	metricsCopy := mc.metricsPool.Get().(*Metrics)
@@ -293,7 +294,7 @@ func (mc *MetricsCollector) GetMetrics() *Metrics {
 
 	// Copy non-atomic fields
 	metricsCopy.StartTime = mc.metrics.StartTime
-	metricsCopy.Uptime = mc.metrics.Uptime
+	metricsCopy.Uptime = uptime
 
 	// Copy backend metrics using pooled objects
 	for name, backend := range mc.metrics.BackendMetrics {
